@@ -90,8 +90,8 @@ func c05Inputs(errors bool) (s *Spec, st *State, msgs []interface{}) {
 	nn := 2
 	km := 2
 	if verif.Tier() > 0 {
+		// (three nodes with three messages did not finish in 10 minutes: one more message only)
 		km = 3
-		nn = 3
 	}
 	if errors {
 		nn, km = 2, 3
